@@ -32,7 +32,7 @@ func (ks keySchema) getKeyValue(attrs map[string]string, item map[string]*types.
 		return "", err
 	}
 
-	hashKeyStr := fmt.Sprintf("%v", val)
+	hashKeyStr := keyString(val)
 
 	if ks.RangeKey == "" {
 		return hashKeyStr, nil
@@ -45,9 +45,19 @@ func (ks keySchema) getKeyValue(attrs map[string]string, item map[string]*types.
 		return "", err
 	}
 
-	key = append(key, fmt.Sprintf("%v", val))
+	key = append(key, keyString(val))
 
 	return strings.Join(key, "."), nil
+}
+
+// keyString renders a key value so that the order of the strings is the order of the values:
+// binaries are written in hexadecimal, byte by byte
+func keyString(val interface{}) string {
+	if b, ok := val.([]byte); ok {
+		return fmt.Sprintf("%x", b)
+	}
+
+	return fmt.Sprintf("%v", val)
 }
 
 func (ks *keySchema) describe() []types.KeySchemaElement {
